@@ -50,6 +50,9 @@ package reflection
 //@   nopanic
 //@   modifies alloc
 //@   ensures regs_ok: result1 != nil ==> isnil(result0)
+//@   ensures[C01,C04,C15] nil_fields_are_skipped: forall i int :: 0 <= i && i < len(result0) ==> result0[i].Value != nil
+//@   loop 1
+//@     invariant nil_fields_are_skipped: forall j int :: 0 <= j && j < len(registrations) ==> registrations[j].Value != nil
 //
 //@ field ParameterInfo.Type immutable
 //@ field ParameterInfo.Key immutable
